@@ -375,6 +375,33 @@ func init() {
 	// direct predicate: FixComponents is a pure function of glyph and map (the model's
 	// fixComponents, C11_components) — the input glyphs are the same afterwards and a second call
 	// on them gives the same result
+	// direct predicate (C11_components + C11_roundtrip + C11_loca): the glyphs FixComponents
+	// returns, encoded as a set and decoded again, are the rewritten glyphs — instruction blocks
+	// (also empty ones) still present — and the loca offsets are even
+	ops["glyf.fixenc"] = func(f Fields) string {
+		return canonPanic(guard(func() string {
+			gg := glyfParseGlyphs(f["gs"])
+			m := glyfParseGidMap(f)
+			out := make(glyf.Glyphs, len(gg))
+			for i, g := range gg {
+				out[i] = g.FixComponents(m)
+			}
+			enc := out.Encode()
+			gg2, err := glyf.Decode(enc)
+			if err != nil {
+				return glyfErrKind(err)
+			}
+			even := "even"
+			if enc.LocaFormat == 1 {
+				for i := 3; i < len(enc.LocaData); i += 4 {
+					if enc.LocaData[i]&1 != 0 {
+						even = "odd"
+					}
+				}
+			}
+			return "ok:" + glyfShowGlyphs(gg2) + "|" + even
+		}))
+	}
 	ops["glyf.fixpure"] = func(f Fields) string {
 		out := ops["glyf.fix"](f)
 		p := strings.Split(out, "|")
@@ -392,14 +419,7 @@ func init() {
 	ops["glyf.fix"] = func(f Fields) string {
 		return canonPanic(guard(func() string {
 			gg := glyfParseGlyphs(f["gs"])
-			m := map[glyph.ID]glyph.ID{}
-			for _, e := range f.List("map", ";") {
-				var a, b int
-				fmt.Sscanf(e, "%d:%d", &a, &b)
-				if _, dup := m[glyph.ID(a)]; !dup { // first entry wins, as in the model's find?
-					m[glyph.ID(a)] = glyph.ID(b)
-				}
-			}
+			m := glyfParseGidMap(f)
 			// FixComponents must return new glyphs and leave its input alone: the original list
 			// is shown again after the call, its Components() and its encoding are compared with
 			// those taken before, and a second call on the original must give the first result.
@@ -433,6 +453,30 @@ func init() {
 			return res1 + "|" + state + "|" + again + "|comps=" + glyfCompsString(out)
 		}))
 	}
+}
+
+// glyfIdentityMap maps every component id that occurs to itself.
+func glyfIdentityMap(gg glyf.Glyphs) string {
+	var m []string
+	for _, g := range gg {
+		for _, id := range g.Components() {
+			m = append(m, fmt.Sprintf("%d:%d", int(id), int(id)))
+		}
+	}
+	return strings.Join(m, ";")
+}
+
+// glyfParseGidMap reads `map=a:b;...` (first entry for a key wins, as in the model's find?).
+func glyfParseGidMap(f Fields) map[glyph.ID]glyph.ID {
+	m := map[glyph.ID]glyph.ID{}
+	for _, e := range f.List("map", ";") {
+		var a, b int
+		fmt.Sscanf(e, "%d:%d", &a, &b)
+		if _, dup := m[glyph.ID(a)]; !dup {
+			m[glyph.ID(a)] = glyph.ID(b)
+		}
+	}
+	return m
 }
 
 // glyfCompsString shows Components() of every glyph: nil, or the glyph indices.
@@ -895,6 +939,12 @@ func glyfSetCase(c *Ctx, gg glyf.Glyphs, wf bool) {
 		}
 		c.Case(Verdict, "glyf.fix", arg+" map="+strings.Join(m, ";"), true)
 		c.Case(Direct, "glyf.fixpure", arg+" map="+strings.Join(m, ";"), true)
+		if wf {
+			c.Case(Direct, "glyf.fixenc", arg+" map="+strings.Join(m, ";"), true)
+			if r.Chance(1, 3) { // identity renumbering
+				c.Case(Direct, "glyf.fixenc", arg+" map="+glyfIdentityMap(gg), true)
+			}
+		}
 	}
 	// malformed stream: mutate glyf, loca or the format
 	gb, lb := mustHex(gl), mustHex(loca)
